@@ -183,8 +183,12 @@ CHECKS = {
              "constituent modules' reduced instance sets are re-generated and discharged inside this check; the coverage "
              "obligation is mechanical: each of the 43 callback productions of grammar.lark, every transformer helper and every "
              "non-trivial text-emitting method of every IR class is under contract in some module. Open findings of the "
-             "constituents are inherited by reference. Thorough tier: monitored compilation of all 2181 bundled definitions "
-             "(run-time checking, reported separately, not counted as proved).",
+             "constituents are inherited by reference. Thorough tier: monitored compilation of all 2181 bundled definitions in "
+             "both layouts and of the 13 bundled routines - structural clauses M1-M7 on the emitted text (declaration shape, sorts by "
+             "fixpoint with one sort per local, declared-before-use, linear ownership, final return, layout agreement modulo DUP, "
+             "no parser object in the text) and M8, the callbacks' WF postcondition on every real node registered - run-time "
+             "checking, reported separately under monitored_corpus_run, never counted as proved; it shows which shipped "
+             "instructions reach an open finding (F1r, F4r, F21d/e).",
         design_ref="DESIGN.md section 3, C01",
         note=TRUST + "The induction over the parse tree that turns per-production contracts into the end-to-end statement is metatheory "
              "(T-IND), as is lark's bottom-up callback order (T-LARK); plugin macros by assumed contracts (T-PLUGIN); a bare "
